@@ -102,6 +102,30 @@ Fixpoint mi (its : list item) (pos : nat) (s : str) (ops : popens) : option (nat
   | IEol :: r => match s with [] => mi r pos s ops | _ :: _ => None end
   end.
 
+(* the deterministic walk along GIVEN star lengths: Some (end, captures) iff they describe a parse
+   (Proofs/RegexSpecLemmas.parse_with_iff); used to exhibit competing parses in examples *)
+Fixpoint parse_with (its : list item) (pos : nat) (s : str) (ops : popens) (ls : list nat) : option (nat * pcaps) :=
+  match its with
+  | [] => match ls with [] => Some (pos, []) | _ :: _ => None end
+  | ILit c :: r =>
+      match s with x :: s' => if Ascii.eqb x c then parse_with r (S pos) s' ops ls else None | [] => None end
+  | IOne k :: r =>
+      match s with x :: s' => if in_cls k x then parse_with r (S pos) s' ops ls else None | [] => None end
+  | IStar k :: r =>
+      match ls with
+      | j :: ls' => if j <=? run_len k s then parse_with r (pos + j) (skipn j s) ops ls' else None
+      | [] => None
+      end
+  | IOpen g :: r => parse_with r pos s ((g, pos) :: ops) ls
+  | IClose g :: r =>
+      match lookup_g g ops with
+      | Some a => match parse_with r pos s ops ls with Some (e, pcs) => Some (e, (g, (a, pos)) :: pcs) | None => None end
+      | None => None
+      end
+  | IBol :: r => if Nat.eqb pos 0 then parse_with r pos s ops ls else None
+  | IEol :: r => match s with [] => parse_with r pos s ops ls | _ :: _ => None end
+  end.
+
 Record pmatch := { pm_start : nat; pm_end : nat; pm_stars : list nat; pm_caps : pcaps }.
 
 Fixpoint find_parse_from (its : list item) (pos : nat) (s : str) : option pmatch :=
